@@ -94,13 +94,71 @@ func (c *Ctx) grammarTable() *gTable {
 		return g
 	}
 	g.builders["BQL"] = true
-	evalClauses := func(fd *ast.FuncDecl) ([]gAlt, bool) {
+	// constArg evaluates a builder argument: a constant expression, or a parameter bound by the caller.
+	constArg := func(e ast.Expr, env map[types.Object]constant.Value) constant.Value {
+		if tv, ok := info.Types[e]; ok && tv.Value != nil {
+			return tv.Value
+		}
+		e = ast.Unparen(e)
+		if call, ok := e.(*ast.CallExpr); ok && len(call.Args) == 1 {
+			if tv, ok := info.Types[call.Fun]; ok && tv.IsType() { // conversion of a bound parameter
+				e = ast.Unparen(call.Args[0])
+			}
+		}
+		if id, ok := e.(*ast.Ident); ok && env != nil {
+			if v, ok := env[info.Uses[id]]; ok {
+				return v
+			}
+		}
+		return nil
+	}
+	var evalClauses func(fd *ast.FuncDecl, env map[types.Object]constant.Value, depth int) ([]gAlt, bool)
+	// evalCall evaluates a call of a same-package clause builder, binding constant arguments to its parameters.
+	evalCall := func(call *ast.CallExpr, env map[types.Object]constant.Value, depth int) ([]gAlt, bool) {
+		id, ok := call.Fun.(*ast.Ident)
+		if !ok || depth > 4 {
+			return nil, false
+		}
+		fd := decls[id.Name]
+		if fd == nil || info.Uses[id] == nil || info.Uses[id].Pkg() != p.Types {
+			return nil, false
+		}
+		var params []types.Object
+		for _, f := range fd.Type.Params.List {
+			for _, n := range f.Names {
+				params = append(params, info.Defs[n])
+			}
+			if len(f.Names) == 0 {
+				return nil, false
+			}
+		}
+		if len(params) != len(call.Args) || call.Ellipsis.IsValid() {
+			return nil, false
+		}
+		inner := map[types.Object]constant.Value{}
+		for i, a := range call.Args {
+			v := constArg(a, env)
+			if v == nil {
+				return nil, false
+			}
+			inner[params[i]] = v
+		}
+		alts, ok := evalClauses(fd, inner, depth+1)
+		if ok {
+			g.builders[id.Name] = true
+		}
+		return alts, ok
+	}
+	evalClauses = func(fd *ast.FuncDecl, env map[types.Object]constant.Value, depth int) ([]gAlt, bool) {
 		if fd.Body == nil || len(fd.Body.List) != 1 {
 			return nil, false
 		}
 		r, ok := fd.Body.List[0].(*ast.ReturnStmt)
 		if !ok || len(r.Results) != 1 {
 			return nil, false
+		}
+		if call, ok := ast.Unparen(r.Results[0]).(*ast.CallExpr); ok {
+			return evalCall(call, env, depth)
 		}
 		lit, ok := r.Results[0].(*ast.CompositeLit)
 		if !ok {
@@ -140,16 +198,22 @@ func (c *Ctx) grammarTable() *gTable {
 						return nil, false
 					}
 					fn, _ := call.Fun.(*ast.Ident)
-					tv, okv := info.Types[call.Args[0]]
-					if fn == nil || !okv || tv.Value == nil {
+					v := constArg(call.Args[0], env)
+					if fn == nil || v == nil {
 						return nil, false
 					}
 					switch fn.Name {
 					case "NewTokenType":
-						v, _ := constant.Int64Val(tv.Value)
-						alt.elems = append(alt.elems, gElem{tok: v})
+						tk, exact := constant.Int64Val(constant.ToInt(v))
+						if !exact {
+							return nil, false
+						}
+						alt.elems = append(alt.elems, gElem{tok: tk})
 					case "NewSymbol":
-						alt.elems = append(alt.elems, gElem{isSym: true, sym: constant.StringVal(tv.Value)})
+						if v.Kind() != constant.String {
+							return nil, false
+						}
+						alt.elems = append(alt.elems, gElem{isSym: true, sym: constant.StringVal(v)})
 					default:
 						return nil, false
 					}
@@ -179,13 +243,13 @@ func (c *Ctx) grammarTable() *gTable {
 			id, ok := call.Fun.(*ast.Ident)
 			return id, ok
 		}()
-		if fn == nil || len(call.Args) != 0 || decls[fn.Name] == nil {
-			g.undec = append(g.undec, "rule "+name+" is not built by a zero-argument function of the package")
+		if fn == nil || decls[fn.Name] == nil {
+			g.undec = append(g.undec, "rule "+name+" is not built by a function of the package")
 			continue
 		}
-		alts, ok := evalClauses(decls[fn.Name])
+		alts, ok := evalCall(call, nil, 0)
 		if !ok {
-			g.undec = append(g.undec, "rule "+name+": "+fn.Name+" is not a single return of a []*Clause literal of NewTokenType/NewSymbol calls")
+			g.undec = append(g.undec, "rule "+name+": "+fn.Name+" is not a single return of a []*Clause literal of NewTokenType/NewSymbol calls (or of another such builder with constant arguments)")
 			continue
 		}
 		if _, dup := g.rules[name]; dup {
